@@ -591,6 +591,32 @@ impl C17 {
         }
         self.run_tetris_variant(g, listing, key, 2, cx);
         cx.tag("tetris-both-views");
+        // not yet placed: every instance after the first of its cell is placed relative to its predecessor
+        if (0..g.n).any(|i| g.adj[i].count_ones() >= 2) {
+            cx.stats.executions += 1;
+            let (lib, names, ptrs) = Self::build_tetris(g, listing, 0);
+            for p in &ptrs {
+                let c = p.read().unwrap();
+                if let Some(lay) = &c.layout {
+                    let insts: Vec<Ptr<tetris::instance::Instance>> = lay.instances.iter().cloned().collect();
+                    for k in 1..insts.len() {
+                        use tetris::placement::*;
+                        insts[k].write().unwrap().loc = Place::Rel(RelativePlace { to: Placeable::Instance(insts[k - 1].clone()), side: Side::Right, align: Align::Side(Side::Bottom), sep: Separation::default() });
+                    }
+                }
+            }
+            let res = guard(|| {
+                lib.dep_order().map(|v| v.iter().map(|p| Self::idx_of(&names, &p.read().unwrap().name)).collect::<Vec<usize>>()).map_err(|e| format!("{e:?}"))
+            });
+            self.judge(key, "tetris-dep_order+relative-instances", g, listing, res, cx);
+            cx.tag("tetris-relative-instances");
+            for p in &ptrs {
+                if let Ok(mut c) = p.write() {
+                    c.layout = None;
+                    c.abs = None;
+                }
+            }
+        }
     }
     fn run_tetris_variant(&self, g: &Graph, listing: &[usize], key: &str, variant: u8, cx: &mut Cx) {
         cx.stats.executions += 3;
@@ -935,7 +961,7 @@ impl Driver for C17 {
         let m = tier.pick(3, 4);
         Describe {
             rule: format!(
-                "generic utils::DepOrder: every labelled digraph on 1..=4 nodes including self-loops (2^(n*n)) x every ordered non-empty sub-list of the nodes as the item slice (so reachable != all); every loop-free digraph on 5 nodes (2^20) x {} listing orders. Embedded orderers through public entry points, every digraph on 1..={m} nodes with self-loops x every listing permutation, edges realised as instances / SREF+AREF / relative placements, raw and tetris graphs additionally with every sink cell abstract-only (no layout view) and with every cell holding both an abstract and a layout view: raw DepOrder::order and Library::to_proto (cell list order), Library::from_gds (imported cell order), tetris Library::dep_order (and once more on the same library object after one more instance was added), tetris ProtoExporter::export, Placer::place (cell graph), and Placer::place over every functional relation graph on 1..={m} instances ((n+1)^n: chains, stars, trees, self-loops, cycles) x every listing permutation, each also with the last listed instance present but not listed in the layout (reachable only through a relation). A state is (orderer, graph, listing); non-trivial = graph has at least one edge. Oracle: reachable set by DFS, cycle by Kahn elimination; Ok order must be exactly the reachable set, duplicate-free, every node after all its dependencies; reachable cycle => Err.",
+                "generic utils::DepOrder: every labelled digraph on 1..=4 nodes including self-loops (2^(n*n)) x every ordered non-empty sub-list of the nodes as the item slice (so reachable != all); every loop-free digraph on 5 nodes (2^20) x {} listing orders. Embedded orderers through public entry points, every digraph on 1..={m} nodes with self-loops x every listing permutation, edges realised as instances / SREF+AREF / relative placements, raw and tetris graphs additionally with every sink cell abstract-only (no layout view) and with every cell holding both an abstract and a layout view: raw DepOrder::order and Library::to_proto (cell list order), Library::from_gds (imported cell order), tetris Library::dep_order (and once more on the same library object after one more instance was added; and on the not yet placed library whose instances are placed relative to one another), tetris ProtoExporter::export, Placer::place (cell graph), and Placer::place over every functional relation graph on 1..={m} instances ((n+1)^n: chains, stars, trees, self-loops, cycles) x every listing permutation, each also with the last listed instance present but not listed in the layout (reachable only through a relation). A state is (orderer, graph, listing); non-trivial = graph has at least one edge. Oracle: reachable set by DFS, cycle by Kahn elimination; Ok order must be exactly the reachable set, duplicate-free, every node after all its dependencies; reachable cycle => Err.",
                 if tier.is_thorough() { "all 120" } else { "8 (identity, reverse, 4 rotations, one shuffle)" }
             ),
             assumptions: vec!["Placer::place over a cell graph returns the placed library, not the cell order: only Ok/Err and the cell set are judged there; over a relation graph the placed layout lists its instances in placement order, which is judged like every other ordering".into()],
@@ -1170,7 +1196,7 @@ impl Driver for C17 {
         None
     }
     fn guards(&self, tier: Tier, stats: &Stats, _d: u64) -> Result<(), String> {
-        require_tags(stats, &["raw-abstract-only-sinks", "tetris-abstract-only-sinks", "raw-both-views", "tetris-both-views", "tetris-order-after-edit", "part-g", "part-g-n4", "part-g-n5", "part-r-n3", "part-d-n3", "part-t-n3", "part-p-n3", "place-order-unlisted-target", "chain", "large-graphs"])?;
+        require_tags(stats, &["raw-abstract-only-sinks", "tetris-abstract-only-sinks", "raw-both-views", "tetris-both-views", "tetris-order-after-edit", "tetris-relative-instances", "part-g", "part-g-n4", "part-g-n5", "part-r-n3", "part-d-n3", "part-t-n3", "part-p-n3", "place-order-unlisted-target", "chain", "large-graphs"])?;
         if tier.is_thorough() {
             require_tags(stats, &["part-r-n4", "part-d-n4", "part-t-n4", "part-p-n4"])?;
         }
